@@ -1,5 +1,20 @@
-"""Glue between the CLI and the symbolic engine (pyvc.symex + pyvc.smt)."""
+"""Glue between the CLI and the symbolic engine: build VCs for one contract / lemma from the current
+/repo source, emit SMT-LIB, run the solver portfolio in parallel, classify the answers."""
 from __future__ import annotations
+
+import ast
+import hashlib
+import json
+import os
+import time
+from concurrent.futures import ThreadPoolExecutor
+
+from . import loader, smt, spec
+from .execu import Executor
+from .smt import T, TRUE, FALSE, And, Or, Not, Implies, Eq
+from .symex import Ctx, Repo, State, Unsupported, VNone, VOpt, parse_ty, Outcome, truthy, REF_SORT
+
+BASELINE = os.path.join(loader.ROOT, "baseline", "sources.json")
 
 
 class Demoted(Exception):
@@ -23,5 +38,238 @@ class ProofResult:
         return d
 
 
+_repo_cache = {}
+
+
+def get_repo():
+    root = loader.REPO
+    if root not in _repo_cache:
+        _repo_cache[root] = Repo(root)
+    return _repo_cache[root]
+
+
+def baseline_hashes():
+    if os.path.exists(BASELINE):
+        return json.load(open(BASELINE))
+    return {}
+
+
+def src_hash(text):
+    return hashlib.sha1(ast.dump(ast.parse(text.strip() if not text.startswith(" ") else "if 1:\n" + text)).encode()).hexdigest()[:16]
+
+
+def func_hash(repo, q):
+    node = repo.funcs[q][0]
+    return hashlib.sha1(ast.dump(node).encode()).hexdigest()[:16]
+
+
+# ------------------------------------------------------------------------------------------
+def preamble(ctx):
+    lines = ["(set-logic ALL)", smt.STR_SIG_U, "(declare-sort Rec 0)", "(declare-sort Conv 0)"]
+    lines += list(ctx.sort_decls.values())
+    lits = list(ctx.lits.items())
+    for s, t in lits:
+        lines.append(f"(declare-const {t.s} Str)")
+        lines.append(f"(assert (= (slen {t.s}) {len(s)}))")
+    if lits:
+        lines.append("(assert (distinct empty " + " ".join(t.s for _, t in lits) + "))")
+    allv = lits + [("", T("empty", "Str"))]
+    for a, ta in allv:
+        for b, tb in allv:
+            if ta.s == tb.s:
+                continue
+            lines.append(f"(assert ({'' if a.startswith(b) else 'not ('}prefixof {tb.s} {ta.s}{'' if a.startswith(b) else ')'}))")
+            lines.append(f"(assert ({'' if b in a else 'not ('}contains {ta.s} {tb.s}{'' if b in a else ')'}))")
+    lines.append(smt.str_axioms_text())
+    lines += ctx.decls
+    for a in ctx.assumptions:
+        lines.append(f"(assert {a.s})")
+    return "\n".join(lines)
+
+
+def query_text(ctx, ob):
+    parts = [preamble(ctx)]
+    for h in ob.hyps:
+        parts.append(f"(assert {h.s})")
+    parts.append(f"(assert (not {ob.goal.s}))")
+    parts.append("(check-sat)")
+    return "\n".join(parts) + "\n"
+
+
+def build_engine(module="api"):
+    loader.load()
+    repo = get_repo()
+    ctx = Ctx()
+    copts = {q: ci.opts for q, ci in spec.CONTRACTS.items()}
+    eng = Executor(repo, ctx, loader.HELPERS, loader.CONTRACT_AST, copts, invariants=loader.INVARIANT_AST)
+    eng.module = module
+    return repo, ctx, eng
+
+
+def gen_contract_vcs(q, carve_outs=()):
+    repo, ctx, eng = build_engine(q.split(".")[0] if q.split(".")[0] in ("api", "reconciliation", "discovery", "w3c", "triples") else "api")
+    if q not in repo.funcs:
+        raise Demoted(f"function {q} not found in the repository source")
+    fnode, mod, cls = repo.funcs[q]
+    eng.module = mod
+    cnode = loader.CONTRACT_AST[q]
+    cparams = [(a.arg, ast.unparse(a.annotation) if a.annotation is not None else None) for a in cnode.args.args + cnode.args.kwonlyargs]
+    fa = fnode.args
+    fparams = [a.arg for a in fa.posonlyargs + fa.args + fa.kwonlyargs]
+    if any(isinstance(d, ast.Name) and d.id == "classmethod" for d in fnode.decorator_list):
+        fparams = fparams[1:]
+    if [p for p, _ in cparams] != fparams:
+        raise Demoted(f"parameters of {q} are {fparams}, the contract was written for {[p for p, _ in cparams]}")
+    binding = {}
+    for p, ann in cparams:
+        if ann is None:
+            raise Demoted(f"contract parameter {p} has no type")
+        binding[p] = ctx.fresh("p_" + p, parse_ty(ann))
+    st0 = State(env=dict(binding))
+    eng.cur_func = q
+    eng.loop_counter = 0
+    parts = eng.contract_parts(q, binding, st0)
+    st = st0
+    for t, src in parts["requires"]:
+        st = st.assume(t)
+    for co in carve_outs:
+        eng.in_spec += 1
+        try:
+            t = truthy(ctx, eng.ev(ast.parse(co, mode="eval").body, dict(binding), st0))
+        finally:
+            eng.in_spec -= 1
+        st = st.assume(Not(t))
+    pre = st
+    outs = eng.run_block(fnode.body, st)
+    n_paths = 0
+    canary_paths = []
+    for s1, o in outs:
+        n_paths += 1
+        where = f"{q}:exit{n_paths}"
+        if o.kind in ("normal", "return"):
+            v = o.value if o.kind == "return" else VNone()
+            for names, when, src in parts["raises"]:
+                ctx.oblige(f"{where}:normal return only when not [{src}]", "no-missed-raise", s1.pc, Not(when), where)
+            p2 = eng.contract_parts(q, binding, s1, result=v, pre_state=st0)
+            for t, src in p2["ensures"]:
+                ctx.oblige(f"{where}:ensures {src}", "postcondition", s1.pc, t, where)
+            if parts["pure"]:
+                for key, arr in s1.heap.items():
+                    if key in st0.heap and st0.heap[key].s != arr.s:
+                        ctx.oblige(f"{where}:pure: heap field {key} unchanged", "frame", s1.pc, Eq(st0.heap[key], arr), where)
+            canary_paths.append(s1)
+        elif o.kind == "raise":
+            allowed = [when for names, when, src in parts["raises"] if any(repo.subclass(o.exc, n) for n in names)]
+            ctx.oblige(f"{where}:raise {o.exc} admitted by a raises-clause", "exceptional-exit", s1.pc, Or(*allowed), where)
+        else:
+            raise Demoted(f"{o.kind} outside a loop")
+    return repo, ctx, eng, pre, canary_paths, n_paths
+
+
+def gen_lemma_vcs(name):
+    repo, ctx, eng = build_engine("api")
+    lnode = loader.LEMMA_AST[name]
+    binding = {}
+    for a in lnode.args.args:
+        binding[a.arg] = ctx.fresh("p_" + a.arg, parse_ty(ast.unparse(a.annotation)))
+    st0 = State(env=dict(binding))
+    eng.cur_func = "lemma:" + name
+    eng.loop_counter = 0
+    eng.module = "api"
+    outs = eng.run_block(lnode.body, st0)
+    canary_paths = []
+    for s1, o in outs:
+        if o.kind == "raise":
+            ctx.oblige(f"lemma {name}: no exception ({o.exc})", "exceptional-exit", s1.pc, FALSE, name)
+        else:
+            canary_paths.append(s1)
+    return repo, ctx, eng, st0, canary_paths, len(outs)
+
+
+def discharge(ctx, obligations, timeout, order, workers=16):
+    def work(ob):
+        text = query_text(ctx, ob)
+        if os.environ.get("PYVC_DUMP"):
+            os.makedirs(os.environ["PYVC_DUMP"], exist_ok=True)
+            import re as _re
+            open(os.path.join(os.environ["PYVC_DUMP"], _re.sub(r"[^A-Za-z0-9_.-]+", "_", ob.label)[:120] + ".smt2"), "w").write(text)
+        r = smt.solve(text, timeout, order=order)
+        return ob, r
+    with ThreadPoolExecutor(max_workers=workers) as ex:
+        return list(ex.map(work, obligations))
+
+
 def prove_item(kind, name, tier, seed, known=()):
-    raise Demoted("symbolic engine not built yet")
+    t0 = time.time()
+    carve = [k["carve_out"] for k in known]
+    try:
+        if kind == "contract":
+            repo, ctx, eng, pre, canary_paths, n_paths = gen_contract_vcs(name, carve)
+        else:
+            repo, ctx, eng, pre, canary_paths, n_paths = gen_lemma_vcs(name)
+    except Unsupported as e:
+        raise Demoted(str(e))
+    res = ProofResult()
+    res.trusted = set(ctx.trusted)
+    timeout = 20 if tier == "quick" else 90
+    order = ("z3-new", "z3", "cvc5")
+    from .symex import Obligation
+    canaries = [Obligation(f"{name}:canary:precondition satisfiable", "canary", pre.pc, FALSE, name)]
+    for s1 in canary_paths[: (1 if tier == "quick" else 4)]:
+        canaries.append(Obligation(f"{name}:canary:return path reachable", "canary", s1.pc, FALSE, name))
+
+    def work(ob):
+        text = query_text(ctx, ob)
+        if os.environ.get("PYVC_DUMP"):
+            os.makedirs(os.environ["PYVC_DUMP"], exist_ok=True)
+            import re as _re
+            open(os.path.join(os.environ["PYVC_DUMP"], _re.sub(r"[^A-Za-z0-9_.-]+", "_", ob.label)[:120] + ".smt2"), "w").write(text)
+        if ob.kind == "canary":
+            return ob, smt.solve(text, 2, order=("z3-new",))
+        return ob, smt.solve(text, timeout, order=order)
+    with ThreadPoolExecutor(max_workers=int(os.environ.get("PYVC_WORKERS", "6"))) as ex:
+        allres = list(ex.map(work, list(ctx.obligations) + canaries))
+    results = [(ob, r) for ob, r in allres if ob.kind != "canary"]
+    res.n_obligations = len(ctx.obligations) + len(ctx.trivial)
+    res.n_discharged = len(ctx.trivial)
+    if ctx.trivial:
+        res.by_backend["syntactic-identity"] = [len(ctx.trivial), 0.0]
+    base = baseline_hashes()
+    if kind == "contract":
+        h = func_hash(repo, name)
+        res.info["source_hash"] = h
+        res.source_changed = name in base and base[name] != h
+    for ob, r in results:
+        ob.status = r["result"]
+        ob.solver = r["solver"]
+        ob.seconds = r["s"]
+        ob.solver_output = r["tried"]
+        for t in r["tried"]:
+            a = res.by_backend.setdefault(t["solver"], [0, 0.0])
+            a[1] += t["s"]
+        if r["result"] == "unsat":
+            res.n_discharged += 1
+            res.by_backend[r["solver"]][0] += 1
+        else:
+            ob.refuted = r["result"] == "sat"
+            res.failed.append(ob)
+    vac = 0
+    for ob, r in allres:
+        if ob.kind == "canary" and r["result"] == "unsat":
+            vac += 1
+            res.failed.append(ob)
+            ob.status = "vacuous"
+            ob.solver_output = r["tried"]
+    res.info.update({
+        "paths": n_paths,
+        "canaries": len(canaries),
+        "canaries_vacuous": vac,
+        "inlined_getters": sorted(ctx.inlined),
+        "dropped": sorted(ctx.dropped),
+        "undischarged": [{"label": ob.label, "status": ob.status} for ob in res.failed],
+        "prove_s": round(time.time() - t0, 2),
+    })
+    for ob, r in results[:3]:
+        res.samples.append({"obligation": ob.label, "kind": ob.kind, "result": r["result"], "solver": r["solver"], "s": round(r["s"], 3),
+                            "goal_smt": ob.goal.s[:300]})
+    return res
